@@ -44,7 +44,9 @@ func mkCrit(c *core.Ctx, kind string, recs []R, dir string) crit {
 		re := rx(p)
 		return crit{kind, []string{"-D", p}, func(r R) bool { return re.MatchString(r.Def) }}
 	case "-s":
-		p := []string{"^ac", "GAT", "ttt+a", "c[at]g$"}[c.Rng.Intn(4)]
+		// plain patterns, and patterns using the upper-case escapes and named groups of the regular
+		// expression syntax (matching is case-insensitive, the syntax of the pattern is not)
+		p := []string{"^ac", "GAT", "ttt+a", "c[at]g$", `\Aac`, `^\S+$`, `c\Bg`, `(?P<core>gat)`, `\Qgat\E`, `a\Wc`, `^[^\D]`, `t\z`}[c.Rng.Intn(12)]
 		re := rx("(?i)" + p)
 		return crit{kind, []string{"-s", p}, func(r R) bool { return re.MatchString(r.Seq) }}
 	case "-a":
